@@ -467,3 +467,33 @@ def r10_byte_strings(text, log):
         out.append(text[i])
         i += 1
     return ''.join(out)
+
+
+
+_LIT = r"(?:'(?:[^'\\]|\\.)'|b'(?:[^'\\]|\\.)'|\d+)"
+_R14 = re.compile(r"(?m)^(\s*)(" + _LIT + r"(?:\s*\|\s*" + _LIT + r")+)\s+if\s+([^=\n]+?)\s*=>\s*\{")
+
+
+def r14_split_or_guard(text, log):
+    """R14: a match arm `P1 | P2 if G => { B }` becomes `P1 if G => { B } P2 if G => { B }` (Verus does not support an
+    or-pattern together with a guard; the two forms are equivalent: patterns are tried in order, the guard is evaluated
+    for the first pattern that matches, and the literal patterns handled here are disjoint)."""
+    while True:
+        mask = code_mask(text)
+        hit = None
+        for mm in _R14.finditer(text):
+            ob = mm.end() - 1
+            if mask[ob] != CODE:
+                continue
+            hit = (mm, ob)
+            break
+        if not hit:
+            return text
+        mm, ob = hit
+        cb = match_close(text, mask, ob)
+        indent, pats, guard = mm.group(1), mm.group(2), mm.group(3)
+        body = text[ob:cb + 1]
+        plist = [p_.strip() for p_ in re.split(r"\s*\|\s*", pats)]
+        new = '\n'.join('%s%s if %s => %s' % (indent, p_, guard, body) for p_ in plist)
+        log.append(dict(rule='R14', before=norm_ws(text[mm.start():ob + 1]), after=norm_ws(' / '.join('%s if %s => {' % (p_, guard) for p_ in plist))))
+        text = text[:mm.start()] + new + text[cb + 1:]
